@@ -48,6 +48,8 @@ def extra_candidates(path):
         if s.startswith("//") or not s or "assert" in s or "trace!" in s or "debug!" in s or "log_data" in s:
             continue
         code = line.split("//")[0]
+        if re.match(r'^\s*("[0-9a-f]{2}",\s*){4,}', code):
+            continue    # the hex table of the trace-log dump
         if "del" in KINDS:
             # simple statements: assignments / compound assignments / method calls on self or a local, one line, ends with ';'
             if re.match(r"^\s*(\*?self\.[\w.]+|\*?[a-z_][\w.]*)\s*(\+=|-=|\|=|&=|=)\s*[^=].*;\s*$", code) and not s.startswith("let "):
